@@ -74,6 +74,17 @@ def run(prog, rep, tier):
     r12_4(ctx, rep)
     r12_5(ctx, rep)
     r12_6(ctx, rep)
+    # "evaluating the same text over the resolved names": the callee is resolved by name in the environment of THIS call,
+    # every time (C11's R11.4 / R11.5: getattr chain, no default, no cache), reported here as R12.3
+    from . import C11
+    for fn_ in (C11.r11_4, C11.r11_5):
+        sub = rep.sub()
+        fn_(prog, sub)
+        for it in sub.items:
+            it = dict(it)
+            it["rule"] = "R12.3"
+            rep.items.append(it)
+            rep.counts["R12.3"] = rep.counts.get("R12.3", 0) + 1
     rep.floor("R12.1", 20)
     rep.floor("R12.2", 30)
     rep.floor("R12.3", 6)
